@@ -25,3 +25,5 @@ func vSymbolic() bool
 func vDisjoint(a, b interface{}) bool
 func vChan(label string) chan struct{}
 func vNondetCount() int
+func vUF1(name string, x float64) float64
+func vUF2(name string, x, y float64) float64
